@@ -217,8 +217,8 @@ Theorem mu_exponential_form_sol :
     sol_at fi mu (Fn1 F_LOG T) (Fn1 F_EXP (Add (Sym mu) (Sym eta))) (Mul T (Fn1 F_EXP (Sym eta))) r.
 Proof. exact exponential_sol. Qed.
 
-(* convert_model to generic and back to NONMEM passes statements, parameters, random variables and dependent
-   variables on unchanged (Model.convert_generic / convert_nonmem mirror the two constructors; that update_source
+(* convert_model to generic and back to NONMEM passes statements, parameters, random variables, dependent
+   variables and the value type on unchanged (Model.convert_generic / convert_nonmem mirror the two constructors; that update_source
    does not touch them is what the correspondence checks), so the model function is the same: every model,
    interpretation, solver oracle, environment, symbol. *)
 Theorem convert_roundtrip_identity : forall (m : pmodel), convert_nonmem (convert_generic m) = m.
@@ -235,8 +235,9 @@ Proof. exact convert_roundtrip_lemma. Qed.
 Theorem split_joint_preserves_function :
   forall (fi : finterp) (ode : id -> list (option Q) -> option Q) (inds : list id) (m : pmodel) (r : env) (x : id),
     sexec fi ode r (pm_stmts (split_joint inds m)) x = sexec fi ode r (pm_stmts m) x /\
-    pm_dvs (split_joint inds m) = pm_dvs m.
-Proof. intros. split; reflexivity. Qed.
+    pm_dvs (split_joint inds m) = pm_dvs m /\
+    pm_value_type (split_joint inds m) = pm_value_type m.
+Proof. intros. repeat split; reflexivity. Qed.
 
 Theorem split_joint_parameters :
   forall (inds : list id) (m : pmodel) (p : id * Q * bool),
